@@ -1,0 +1,64 @@
+//go:build verif
+
+// Contracts checked by /verif/gowp. This file contains comments only and is compiled only
+// with -tags verif.
+
+package xpkg
+
+// C15 (linters): each package type's linter demands exactly one meta object of that type and
+// restricts the package's other objects to the kinds the package specification
+// (contributing/specifications/xpkg.md) allows for it: Provider - CRDs and webhook
+// configurations; Configuration - XRDs and Compositions; Function - CRDs. The leaf predicates
+// accept exactly the kinds they name.
+
+//@ func xpkg.NewProviderLinter
+//@ props C15
+//@ let $or = result parser.Or
+//@ site parser.Or($kinds...)
+//@   assert [C15:provider-object-kinds] len($kinds) == 3 && $kinds[0] == IsCRD && $kinds[1] == IsValidatingWebhookConfiguration && $kinds[2] == IsMutatingWebhookConfiguration
+//@ site parser.NewPackageLinter($pkg, $meta, $obj)
+//@   assert [C15:provider-one-meta] len($pkg) == 1 && $pkg[0] == OneMeta
+//@   assert [C15:provider-meta-kind] len($meta) >= 1 && $meta[0] == IsProvider
+//@   assert [C15:provider-objects-restricted] len($obj) == 1 && $obj[0] == $or
+
+//@ func xpkg.NewConfigurationLinter
+//@ props C15
+//@ let $or = result parser.Or
+//@ site parser.Or($kinds...)
+//@   assert [C15:configuration-object-kinds] len($kinds) == 2 && $kinds[0] == IsXRD && $kinds[1] == IsComposition
+//@ site parser.NewPackageLinter($pkg, $meta, $obj)
+//@   assert [C15:configuration-one-meta] len($pkg) == 1 && $pkg[0] == OneMeta
+//@   assert [C15:configuration-meta-kind] len($meta) >= 1 && $meta[0] == IsConfiguration
+//@   assert [C15:configuration-objects-restricted] len($obj) == 1 && $obj[0] == $or
+
+//@ func xpkg.NewFunctionLinter
+//@ props C15
+//@ site parser.NewPackageLinter($pkg, $meta, $obj)
+//@   witness nobj = len($obj)
+//@   assert [C15:function-one-meta] len($pkg) == 1 && $pkg[0] == OneMeta
+//@   assert [C15:function-meta-kind] len($meta) >= 1 && $meta[0] == IsFunction
+//@   assert [C15:function-objects-restricted] len($obj) == 1 && $obj[0] == IsCRD
+
+//@ func xpkg.OneMeta
+//@ props C15
+//@ ensures [C15:exactly-one-meta] (err == nil) <==> len(pkg.GetMeta()) == 1
+
+//@ func xpkg.IsCRD
+//@ props C15
+//@ ensures [C15:crd-kinds] (err == nil) <==> (typeis(o, *extv1beta1.CustomResourceDefinition) || typeis(o, *extv1.CustomResourceDefinition))
+
+//@ func xpkg.IsXRD
+//@ props C15
+//@ ensures [C15:xrd-kind] (err == nil) <==> typeis(o, *v1.CompositeResourceDefinition)
+
+//@ func xpkg.IsComposition
+//@ props C15
+//@ ensures [C15:composition-kind] (err == nil) <==> typeis(o, *v1.Composition)
+
+//@ func xpkg.IsMutatingWebhookConfiguration
+//@ props C15
+//@ ensures [C15:mutating-webhook-kind] (err == nil) <==> typeis(o, *admv1.MutatingWebhookConfiguration)
+
+//@ func xpkg.IsValidatingWebhookConfiguration
+//@ props C15
+//@ ensures [C15:validating-webhook-kind] (err == nil) <==> typeis(o, *admv1.ValidatingWebhookConfiguration)
